@@ -128,6 +128,10 @@ func valTok(sb *strings.Builder, v any) {
 		}
 		fmt.Fprintf(sb, "o%d", len(t))
 	default:
+		if tok, ok := typedTok(v); ok { // typed Go data (typed.go)
+			sb.WriteString(tok)
+			return
+		}
 		panic(fmt.Sprintf("valTok: unexpected %T", v))
 	}
 }
@@ -230,6 +234,12 @@ func parseToks(s string) (vals []any, tms []*tm, err error) {
 				}
 				st = append(st, cell{v: math.Ldexp(float64(m), e)})
 			}
+		case 'x':
+			r, ok := typedByTok[tok]
+			if !ok {
+				return nil, nil, fmt.Errorf("unknown typed value token %q", tok)
+			}
+			st = append(st, cell{v: r.v})
 		case 's', 'r':
 			b, e := lib.UnhexF(rest)
 			if e != nil {
